@@ -5,6 +5,10 @@
 (*                grammar.txt: file (labels, integer weights over T.D),    *)
 (*                flag, success, loaded list with probabilities            *)
 (*                rationalised by the harness                              *)
+(*  kind "structs" the structures a real load returned (T.loaded) against  *)
+(*                the labels of the base-structure file (T.labels): every  *)
+(*                A<n> is followed by its own C<n> (used for the PRINCE    *)
+(*                folder by C17)                                           *)
 (*  kind "stream" pre-terminal streams of the real queue for the default   *)
 (*                run and the --skip_brute run of one ruleset              *)
 (*  kind "lower"  loaded grammar with and without --all_lower              *)
@@ -46,10 +50,11 @@ PM == IF \E k \in 1..Len(T.defout) : HasM(T.defout[k])
 (* p = q / (1 - pm)   <=>   p[1] * q[2] * (pm[2] - pm[1]) = p[2] * q[1] * pm[2] *)
 Rescaled(p, q, pm) == p[1] * q[2] * (pm[2] - pm[1]) = p[2] * q[1] * pm[2]
 
-NClauses == CASE T.kind = "load" -> 4 [] T.kind = "insert" -> 3 [] T.kind = "stream" -> 5 [] T.kind = "lower" -> 3 [] OTHER -> 1
+NClauses == CASE T.kind = "load" -> 4 [] T.kind = "insert" -> 3 [] T.kind = "structs" -> 1 [] T.kind = "stream" -> 5 [] T.kind = "lower" -> 3 [] OTHER -> 1
 ClauseName(k) ==
   CASE T.kind = "load"   -> <<"C14_load_succeeds", "C14_same_structures_in_order", "C14_rescaled_by_1_minus_PM", "C14_numeric_residue">>[k]
     [] T.kind = "insert" -> <<"C03_ruleset_loads", "C03_every_alpha_variable_gets_its_case_mask", "C03_probabilities_as_written">>[k]
+    [] T.kind = "structs" -> <<"every_alpha_variable_gets_its_own_case_mask">>[k]
     [] T.kind = "stream" -> <<"C14_load_succeeds", "C14_exactly_the_non_markov_preterminals", "C14_same_order", "C14_rescaled", "C14_no_markov_left">>[k]
     [] T.kind = "lower"  -> <<"C14_lower_other_types_unchanged", "C14_lower_masks_collapsed", "C14_lower_base_unchanged">>[k]
     [] OTHER             -> <<"C14_stream_is_reference">>[k]
@@ -63,6 +68,7 @@ ClauseHolds(k) ==
     [] T.kind = "insert" /\ k = 2 -> LET e == Expected(T.file, FALSE) IN
                                      Len(T.defout) = Len(e) /\ \A j \in 1..Len(e) : T.defout[j].s = e[j].s
     [] T.kind = "insert" /\ k = 3 -> LET e == Expected(T.file, FALSE) IN \A j \in 1..Len(e) : SameProb(T.defout[j].p, e[j].p)
+    [] T.kind = "structs" -> Len(T.loaded) = Len(T.labels) /\ \A j \in 1..Len(T.labels) : T.loaded[j] = InsertC(T.labels[j])
     [] T.kind = "stream" /\ k = 1 -> T.ok
     [] T.kind = "stream" /\ k = 2 -> /\ BagOfSeq(Keys(T.skp)) = BagOfSeq(Keys(SelectSeq(T.def, LAMBDA e : ~e.m)))
                                       /\ \A i \in 1..Len(T.skp) : \E j \in 1..Len(T.def) :
